@@ -62,7 +62,11 @@ class B58:
         return id(self)
 
     def __str__(self):
-        return '<base58>'
+        # reached through C-level formatting (repr / log strings): an indexed placeholder keeps the value traceable
+        try:
+            return core._placeholder(self)
+        except Exception:
+            return '<base58>'
 
 
 class _Pt:
